@@ -18,13 +18,34 @@ def vectors(rng):
     return vs
 
 
+class _ViaFormula:
+    """name(x) evaluated like a formula term: design_matrices on the first vector, evaluate_new_data on every later one"""
+
+    def __init__(self, name):
+        self.name, self.dm, self.first = name, None, None
+
+    def __call__(self, x):
+        import pandas as pd
+        from formulae import design_matrices
+        d = pd.DataFrame({"y": np.zeros(len(x)), "x": np.asarray(x, dtype=float)})
+        if self.dm is None:
+            self.dm = design_matrices(f"y ~ 0 + {self.name}(x)", d)
+            return np.asarray(self.dm.common.design_matrix, dtype=float)[:, 0]
+        return np.asarray(self.dm.common.evaluate_new_data(d).design_matrix, dtype=float)[:, 0]
+
+
 def check_center_scale(rng):
     from formulae.transforms import Center, Scale, TRANSFORMS
     out = []
     for x in vectors(rng):
         x2 = rng.normal(size=7) * 5 + 3
-        for cls, name in ((Center, "center"), (Scale, "scale"), (TRANSFORMS["standardize"], "standardize"), (TRANSFORMS["center"], "center*")):
-            t = cls()
+        for cls, name in ((Center, "center"), (Scale, "scale"), (TRANSFORMS["standardize"], "standardize"), (TRANSFORMS["center"], "center*"),
+                          (None, "center"), (None, "scale"), (None, "standardize")):       # None: through the formula API
+            if not isinstance(cls, type):
+                # the registered name is not a transform class: evaluate it the way a formula does (one LazyCall, training then later data)
+                t = _ViaFormula(name.rstrip("*"))
+            else:
+                t = cls()
             r = np.asarray(t(x), dtype=float)
             tol = 1e-9 * max(1.0, np.abs(x).max())
             err = None
@@ -169,6 +190,23 @@ def check_poly(rng):
                 R = np.asarray(Polynomial()(x, deg, raw=True), dtype=float)
                 if err is None and not np.allclose(R, np.column_stack([x ** k for k in range(1, deg + 1)])):
                     err = "raw=True does not return the powers"
+                if err is None and deg <= 4:
+                    # the same instance on later data - one row, two rows, few distinct values: each column is the polynomial that the
+                    # training column is in x (recovered by least squares from the training values), evaluated at the later points
+                    t = Polynomial()
+                    P0 = np.asarray(t(x, deg), dtype=float)
+                    V = np.column_stack([xs ** k for k in range(0, deg + 1)])
+                    coef = np.linalg.lstsq(V, P0, rcond=None)[0]
+                    for later in (x[:1], x[3:5], np.array([x[0], x[0], x[1]])):
+                        ls_ = (later - x.mean()) / (x.std() or 1.0)
+                        want = np.column_stack([ls_ ** k for k in range(0, deg + 1)]) @ coef
+                        got = np.asarray(t(later, deg), dtype=float).reshape(len(later), -1)
+                        if got.shape != want.shape or not np.allclose(got, want, atol=max(1e-6, tol * 100)):
+                            err = f"later data ({len(later)} rows) are not mapped by the polynomials fitted on the training data"
+                            break
+                    Rl = np.asarray(Polynomial()(x[:1], deg, raw=True), dtype=float).reshape(1, -1)
+                    if err is None and not np.allclose(Rl, [[x[0] ** k for k in range(1, deg + 1)]]):
+                        err = "raw=True on a single row does not return the powers"
             except Exception as ex:
                 err = f"raised {type(ex).__name__}: {ex}"
             out.append((tag, err or "ok"))
